@@ -170,14 +170,15 @@ func (h *Handler) HandleOpenFile(ctx *Context, path string) (fs.FileInfo, error)
 		return nil, err
 	}
 
-	ctx.State.ROFile = f
-	ctx.State.CDSectorSize = 2352 // default sector size
-
 	fi, err := f.Stat()
 	if err != nil {
 		log.WarnContext(ctx, "Stat failed", logutil.ErrorAttr(err))
+		_ = f.Close() // client gets open failure so nothing must stay opened
 		return nil, err
 	}
+
+	ctx.State.ROFile = f
+	ctx.State.CDSectorSize = 2352 // default sector size
 
 	// if file size between 2Mb and 848Mb we should try to detect sector size
 	if fi.Size() >= 0x200000 && fi.Size() <= 0x35000000 {
